@@ -82,6 +82,10 @@ func c18Spellings(S string, hasErgoDir bool) []c18Spelling {
 	if S != "a/b" {
 		child := filepath.Join(S, map[string]string{"": "a", "a": "b"}[S])
 		out = append(out, c18Spelling{"--dir-dotdot", child, []string{"--dir", ".."}})
+		// the same directory spelled absolutely through its child (which may be a nested project of its own)
+		out = append(out, c18Spelling{"--dir-abs-child-dotdot", "a/b/c", []string{"--dir", abs(child) + "/.."}})
+		out = append(out, c18Spelling{"--dir-abs-child-dotdot-slash", "", []string{"--dir", abs(child) + "/../"}})
+		out = append(out, c18Spelling{"--dir-abs-dot-segments", "a/b/c", []string{"--dir", abs(child) + "/./../."}})
 	}
 	if S != "" {
 		parent := filepath.Dir(S)
@@ -324,7 +328,7 @@ func runC18(env *core.Env) {
 		"both_files_sequences": seqCov,
 		"states":               len(jobs), "transitions": evals, "traces_validated_against_impl": validated, "samples": samples.list,
 		"evaluations": evals, "distinct_nontrivial": classes.len(), "exhaustive": env.TimeLeft(), "configurations": len(jobs),
-		"rule":                   "all 27 layouts of a 3-level tree (.ergo absent / directory / regular file per level) x start directory at every level x up to 9 spellings (cwd, --dir absolute, absolute with trailing slash, '.', '..', relative name, './x/../x', the .ergo directory itself absolute and relative) + all 8 presence combinations of {plans.jsonl, events.jsonl, lock} x 10 commands, plus 3 forms of init on every existing store; distinct = (command, spelling, expected store, exit)",
+		"rule":                   "all 27 layouts of a 3-level tree (.ergo absent / directory / regular file per level) x start directory at every level x up to 12 spellings (cwd, --dir absolute, absolute with trailing slash, '.', '..', absolute through the child with '/..', '/../', '/./../.', relative name, './x/../x', the .ergo directory itself absolute and relative) + all 8 presence combinations of {plans.jsonl, events.jsonl, lock} x 10 commands, plus 3 forms of init on every existing store; distinct = (command, spelling, expected store, exit)",
 		"unconfirmed_candidates": unconfirmed.Load(),
 	}, []string{"the checker computes the nearest enclosing .ergo from the layout; scratch directories have no .ergo above the tree root"})
 }
